@@ -83,6 +83,14 @@ add('C13', DOCGEN + 'node offsets from Unparse, regex family hits, LineCol.tla o
     'string; the real positions, char_pos_to_line (ascending and descending lookup order) and search_regex are compared with them; '
     'corpus parses are validated by TLC.', 'Bounded budget and string length; LF line structure; fixed regex family.', '7 (C13)')
 
+add('C04', 'TLC trace validation (ViewsTrace.tla) of the views recorded from the real tree for every node of every DocGen '
+    'document and corpus document; DocGen + reader machine supply the documents',
+    'For every generated document (all construct kinds within the budget) and every corpus document the harness records the '
+    'items of all/contents/children/iteration/indexing/descendants/text of every node, the parents handed out and the parent '
+    'chains; TLC evaluates the relations the property states between those recorded views.',
+    'Bounded node budget; the complete content list is expr.all as the property says; identity of the underlying object '
+    'identifies an item across views.', '7 (C04)')
+
 NOT_YET = 'check not built yet in this round (planned, see DESIGN.md section 7)'
 
 
